@@ -1,5 +1,5 @@
 """C09 — iv_event_raw: posts from threads, signal handlers, children reach the owner."""
-from ..core import (AnalysisBroken, Inliner, canon, strip, last_member, must_pass, relpath, norm_cond, walk, forward)
+from ..core import (names_of, same_value, AnalysisBroken, Inliner, canon, strip, last_member, must_pass, relpath, norm_cond, walk, forward)
 from ..analyses import (is_call, holding, path_to, describe, exits_of, callback_kind, loops, innermost_loop,
                         delta_analysis, is_fail, must_pass_from_block, force_edges, prune_infeasible)
 from .c15 import eintr_retried
